@@ -10,6 +10,7 @@ BAG = {
     "meta": '<<"join","sub","sub","unsub","reg","reg","unreg","msess","msess","mreg","mreg","msub","msub","leave">>',
     "kill": '<<"join","join","sub","sub","reg","call","tst","tst","kill","kill","msess","leave","pub">>',
     "hist": '<<"join","sub","unsub","pub","pub","pub","pub","hist","hist","hist","adv","leave">>',
+    "disc": '<<"join","join","sub","sub","sub","pub","pub","pub","reg","reg","call","call","msess","leave">>',
     "churn": '<<"join","join","sub","pub","reg","call","call","cancel","yield","leave","leave","leave","adv">>',
 }
 
@@ -54,9 +55,22 @@ PROPS = {
                 classes=["sess", "meta", "metaapi", "rpcreply"]),
     "C20": dict(family="core",
                 mc=dict(kinds=["join", "sub", "unsub", "pub", "leave"], inv=MC_PUBSUB + ["C20_Retention"],
-                        quick=dict(steps=5, nsess=2), thorough=dict(steps=6, nsess=3), hist=True),
-                gen=[dict(bag="hist", depth=18, quick=220, thorough=3000, hist=True)],
+                        quick=dict(steps=5, nsess=2), thorough=dict(steps=6, nsess=3), mode="hist"),
+                gen=[dict(bag="hist", depth=18, quick=220, thorough=3000, mode="hist")],
                 classes=["metaapi", "rpcreply", "pubsub"]),
+    "C10": dict(family="core",
+                mc=dict(kinds=["join", "sub", "pub", "reg", "call", "yield", "leave"], inv=["TablesOK"], props=["C10_Refusal"],
+                        quick=dict(steps=4, nsess=3), thorough=dict(steps=6, nsess=3), mode="authz"),
+                gen=[dict(bag="mixed", depth=20, quick=200, thorough=3000, mode="authz"),
+                     dict(bag="meta", depth=16, quick=60, thorough=1000, mode="authz")],
+                classes=["sess", "pubsub", "meta", "metaapi", "rpcreply", "rpcroute", "rpcintr"]),
+    "C12": dict(family="core",
+                mc=dict(kinds=["join", "sub", "pub", "reg", "call", "leave", "disc"],
+                        inv=["TablesOK", "C12_EventDisclosure", "C12_CallerDisclosure", "C12_RefusedDisclosure"],
+                        quick=dict(steps=4, nsess=2), thorough=dict(steps=5, nsess=2)),
+                gen=[dict(bag="disc", depth=18, quick=220, thorough=3000),
+                     dict(bag="hist", depth=16, quick=60, thorough=800, mode="hist")],
+                classes=["sess", "pubsub", "details", "meta", "metaapi", "rpcroute", "rpcreply"], poison=True),
     "C13": dict(family="core",
                 mc=dict(kinds=MC_RPC_KINDS,
                         inv=["C13_AtMostOneInterrupt", "C13_Modes", "C13_TimeoutExact", "C02_NoLateTimer"],
@@ -86,9 +100,12 @@ def violation_sig(fail):
 
 def mc_cfg(mc, tier, devs=()):
     b = mc[tier]
-    cfg = "SPECIFICATION MCSpec\nCONSTANTS\n  Deviations = %s\n  MCKinds = %s\n  MaxSteps = %d\n  NSess = %d\n  MCHist = %s\n" % (
-        tla_set(devs), tla_set(mc["kinds"]), b["steps"], b["nsess"], "TRUE" if mc.get("hist") else "FALSE")
-    cfg += "INVARIANTS " + " ".join(mc["inv"]) + "\nCHECK_DEADLOCK FALSE\n"
+    cfg = "SPECIFICATION MCSpec\nCONSTANTS\n  Deviations = %s\n  MCKinds = %s\n  MaxSteps = %d\n  NSess = %d\n  MCMode = \"%s\"\n" % (
+        tla_set(devs), tla_set(mc["kinds"]), b["steps"], b["nsess"], mc.get("mode", ""))
+    cfg += "INVARIANTS " + " ".join(mc["inv"]) + "\n"
+    if mc.get("props"):
+        cfg += "PROPERTIES " + " ".join(mc["props"]) + "\n"
+    cfg += "CHECK_DEADLOCK FALSE\n"
     return cfg
 
 
@@ -144,11 +161,12 @@ def run_core(prop, spec, tier, seed, work, replay):
         # leg 2: generate
         scns = []
         for gi, g in enumerate(spec["gen"]):
-            part = gen_scenarios(work, "Gen", {"Deviations": tla_set(devs), "Depth": g["depth"], "HistMode": "TRUE" if g.get("hist") else "FALSE"},
+            part = gen_scenarios(work, "Gen", {"Deviations": tla_set(devs), "Depth": g["depth"], "Mode": '"%s"' % g.get("mode", "")},
                                  g[tier], g["depth"], seed * 7919 + gi, "gen%d" % gi, "%s.%s%d." % (prop, g["bag"], seed),
                                  defs={"KindBag": BAG[g["bag"]]})
             for s in part:
                 s["epilogue"] = True
+                s["poison"] = bool(spec.get("poison"))
             scns += part
     byid = {s["id"]: s for s in scns}
     tf, crashes = run_exec(work, binary, scns, "ex")
